@@ -105,7 +105,8 @@ def bv(t):
     return "BitVec %d" % t[1]
 
 
-def parse(src):
+def parse(src, keep=False):
+    """keep: add to the declarations of the files parsed before (a unit that also translates callees from another file)"""
     inc = vf.toolchain_include()
     cmd = ["clang-14", "-std=gnu99", "-DSYSTEM_ENDIANNESS_LITTLE", "-D_DEFAULT_SOURCE", "-DNDEBUG",
            "-I" + os.path.join(vf.REPO, "include"), "-I" + inc, "-Xclang", "-ast-dump=json", "-fsyntax-only",
@@ -115,9 +116,10 @@ def parse(src):
         raise RuntimeError("clang cannot parse %s: %s" % (src, r.stderr[-400:]))
     d = json.loads(r.stdout)
     fns, tables = [], {}
-    TYPEDEFS.clear()
-    RECORDS.clear()
-    ENUMS.clear()
+    if not keep:
+        TYPEDEFS.clear()
+        RECORDS.clear()
+        ENUMS.clear()
 
     def record(n, name):
         fields = [(f["name"], dq(f)) for f in n.get("inner", []) if f.get("kind") == "FieldDecl"]
@@ -170,12 +172,34 @@ def parse(src):
     return fns, tables
 
 
+FLOAT_SIZES = {"float": 4, "double": 8}
+
+
 def lit_value(e):
-    while e.get("kind") in ("ImplicitCastExpr", "ParenExpr", "CStyleCastExpr"):
+    """value of an array initialiser: a literal, or an integer constant expression over literals and sizeof(type)"""
+    while e.get("kind") in ("ImplicitCastExpr", "ParenExpr", "CStyleCastExpr", "ConstantExpr") and "value" not in e:
         e = e["inner"][0]
-    if e.get("kind") != "IntegerLiteral":
-        raise Unavailable("array initialiser that is not a literal")
-    return int(e["value"])
+    k = e.get("kind")
+    if k == "IntegerLiteral" or (k == "ConstantExpr" and "value" in e):
+        return int(e["value"])
+    if k == "ImplicitValueInitExpr":
+        return 0                          # an index the designated initialisers leave out
+    if k == "UnaryExprOrTypeTraitExpr" and e.get("name") == "sizeof" and "argType" in e:
+        q = e["argType"].get("desugaredQualType", e["argType"].get("qualType", "")).replace("const ", "").strip()
+        if q in FLOAT_SIZES:
+            return FLOAT_SIZES[q]
+        t = ctype(q)
+        if t[0] == "int":
+            return t[1] // 8
+        raise Unavailable("sizeof " + q)
+    if k == "BinaryOperator" and e.get("opcode") in ("+", "-", "*", "/"):
+        a, b = lit_value(e["inner"][0]), lit_value(e["inner"][1])
+        if e["opcode"] == "/":
+            if b == 0:
+                raise Unavailable("division by zero in an initialiser")
+            return a // b
+        return {"+": a + b, "-": a - b, "*": a * b}[e["opcode"]]
+    raise Unavailable("array initialiser that is not a constant")
 
 
 def const_value(e):
@@ -451,7 +475,7 @@ class Fn:
         k = e.get("kind")
         if k == "ParenExpr":
             return self.expr(e["inner"][0])
-        if k == "IntegerLiteral":
+        if k in ("IntegerLiteral", "CharacterLiteral"):      # 'a' has type int in C; clang gives its value
             t = ctype(dq(e))
             return "(%d#%d)" % (int(e["value"]) % (1 << t[1]), t[1])
         if k in ("ImplicitCastExpr", "CStyleCastExpr"):
@@ -1243,11 +1267,17 @@ def translate_fn(node, unit):
 
 class Unit:
     """one C file"""
-    def __init__(self, src, want, opaque=None):
+    def __init__(self, src, want, opaque=None, also=None):
         self.src = src
         self.want = want
         self.opaque = OPAQUE if opaque is None else opaque
-        self.fn_nodes, self.tables = parse(src)
+        # functions of other files this one calls: translated from their own source into the same module
+        callees = []
+        for k, (other, names) in enumerate((also or {}).items()):
+            fns, _ = parse(other, keep=k > 0)
+            callees += [n for n in fns if n["name"] in names]
+        self.fn_nodes, self.tables = parse(src, keep=bool(also))
+        self.fn_nodes = callees + self.fn_nodes
         self.used_tables = set()
         self.ifaces = {}
 
@@ -1352,12 +1382,14 @@ VARINT_TIE = {
 VARINT_WANT = list(VARINT_TIE) + [
     "varint_s64_length", "varint_u32_length", "varint_s32_length",
     "varint_decode_u32", "varint_decode_s32", "varint_decode_u64", "varint_decode_s64",
-    "varint_u32_from_source", "varint_s32_from_source", "varint_u64_from_source", "varint_s64_from_source"]
+    "varint_u32_from_source", "varint_s32_from_source", "varint_u64_from_source", "varint_s64_from_source",
+    "byte_buffer_avail", "varint_encode_u32", "varint_encode_s32", "varint_encode_u64", "varint_encode_s64"]
+VARINT_ALSO = {"src/byte-buffer.c": ["byte_buffer_avail"]}      # what the typed encoders call
 VARINT_STATUS = {}
 
 
 def varint_gen():
-    u = Unit(VARINT_SRC, VARINT_WANT)
+    u = Unit(VARINT_SRC, VARINT_WANT, also=VARINT_ALSO)
     status, defs = u.translate()
     write("VarintLoops", VARINT_SRC, defs)
     VARINT_STATUS.clear()
@@ -1374,6 +1406,9 @@ def varint_tie_modules():
                 "varint_u64_from_source", "varint_u32_from_source")
     if all(VARINT_STATUS.get(f) == "translated" for f in wrappers):
         mods.append("Ufw.Tie.VarintLoops.Wrappers")   # the typed entry points
+    typed = ("byte_buffer_avail", "varint_encode", "varint_encode_u32", "varint_encode_s32", "varint_encode_u64", "varint_encode_s64")
+    if all(VARINT_STATUS.get(f) == "translated" for f in typed):
+        mods.append("Ufw.Tie.VarintLoops.EncodeTyped")    # the typed encoders with their callee from byte-buffer.c
     return mods
 
 
@@ -1501,9 +1536,35 @@ def pst_tie_modules():
     return [m for m, fs in PST_NEEDS.items() if all(ok(f) for f in fs)]
 
 
+# ---------------------------------------------------------------------------------------------------------------
+# src/registers/core.c: the address arithmetic every block access, hole test and initialisation check rests on
+# (the accessors themselves return structures and go through callback tables: tie B)
+# ---------------------------------------------------------------------------------------------------------------
+
+REGS_SRC = "src/registers/core.c"
+REGS_WANT = ["reg_min", "reg_range_touches", "ra_addr_is_part_of", "ra_reg_is_part_of", "ra_reg_fits_into", "ra_range_touches",
+             "register_entry_size"]
+REGS_NEEDS = {"Ufw.Tie.RegFns.Geometry": list(REGS_WANT)}
+REGS_STATUS = {}
+
+
+def regs_gen():
+    u = Unit(REGS_SRC, REGS_WANT)
+    status, defs = u.translate()
+    write("RegFns", REGS_SRC, defs)
+    REGS_STATUS.clear()
+    REGS_STATUS.update(status)
+    return {"cloops:" + k: v for k, v in status.items()}
+
+
+def regs_tie_modules():
+    ok = lambda f: REGS_STATUS.get(f) == "translated"
+    return [m for m, fs in REGS_NEEDS.items() if all(ok(f) for f in fs)]
+
+
 if __name__ == "__main__":
     which = sys.argv[1] if len(sys.argv) > 1 else "crc"
-    st = {"crc": crc_gen, "varint": varint_gen, "regp": regp_gen, "slip": slip_gen, "endp": endp_gen, "pst": pst_gen}[which]()
+    st = {"crc": crc_gen, "varint": varint_gen, "regp": regp_gen, "slip": slip_gen, "endp": endp_gen, "pst": pst_gen, "regs": regs_gen}[which]()
     for k, v in st.items():
         print(k, v)
-    print(open(os.path.join(vf.LEAN, "Ufw/Gen/%s.lean" % {"crc": "CrcLoops", "varint": "VarintLoops", "regp": "RegpFns", "slip": "SlipFns", "endp": "EndpFns", "pst": "PstFns"}[which])).read()[-9000:])
+    print(open(os.path.join(vf.LEAN, "Ufw/Gen/%s.lean" % {"crc": "CrcLoops", "varint": "VarintLoops", "regp": "RegpFns", "slip": "SlipFns", "endp": "EndpFns", "pst": "PstFns", "regs": "RegFns"}[which])).read()[-9000:])
